@@ -60,6 +60,13 @@ def scenarios(tier, fv):
     sc("unterminated-tag", [b"output = file:@D@/out.log", b'message_format = "u %{cwd} %{cmdline"'])
     sc("failing-datasource", [b"output = file:@D@/out.log", b'message_format = "f %{cgroup} %{cwd}"'])
     sc("empty-format", [b"output = file:@D@/out.log", b'message_format = ""'])
+    # ---- thorough: every output with the format that uses every I/O data source (and a chain that walks the process tree)
+    if tier == "thorough":
+        for nm, ol, st in (("socket", b"output = socket:@D@/s.sock", ["dgram\t@D@/s.sock\t0"]), ("devlog", b"output = devlog", [dl]), ("stdout", b"output = stdout", ["stdfd\t1\tfile:@D@/stdout.txt"]),
+                           ("stderr", b"output = stderr", ["stdfd\t2\tfile:@D@/stderr.txt"]), ("devtty", b"output = devtty", []), ("devnull", b"output = devnull", []),
+                           ("file-template", b"output = file:@D@/o-%{hostname}-%{rpname}.log", [])):
+            sc("all-datasources-" + nm, [ol, b'message_format = "' + ALL_DS + b'"', b'syslog_ident = "i-%{login}"', b'filter_chain = "exclude_spawns_of:nosuch;only_uid:0"'], setup=st)
+        sc("all-datasources-terminal", [b"output = file:@D@/out.log", b'message_format = "' + ALL_DS + b'"'], setup=["stdin\tpty"])
     # ---- real sink states (the four the property enumerates, for each sink kind that has them)
     sc("sink-file-missing-dir", [b"output = file:@D@/nodir/sub/out.log", b'message_format = "m %{cmdline}"'], world=("absent", "plain", "plain", "1"), quick=True, faults=False)
     sc("sink-file-mode-000", [b"output = file:@D@/locked/out.log", b'message_format = "m %{cmdline}"'], setup=["mkdir\t@D@/locked\t000", "uid\t65534"],
@@ -304,6 +311,15 @@ def check(run):
             consume(s, res, script, plans, rcs, tag)
             if tag == "base" and len(state["samples"]) < 4 and res["calls"]:
                 state["samples"].append({"scenario": s["name"], "trace_len": len(res["calls"][0]["io"]), "first_calls": [r[1] for r in res["calls"][0]["io"][:8]]})
+    # ---- thorough: independent re-check of the compiled property file with coqchk
+    if thorough and ok:
+        from vlib.core import THEORIES
+        p = subprocess.run(["timeout", "900", "coqchk", "-o", "-silent", "-Q", THEORIES, "Snoopy", "-Q", run.gen, "Gen", "-Q", os.path.join(run.scratch, "props"), "Props", "Props.Properties_C03"],
+                           stdout=subprocess.PIPE, stderr=subprocess.STDOUT, text=True)
+        good = p.returncode == 0 and "Axioms: <none>" in p.stdout and "type-in-type: <none>" in p.stdout and "unsafe (co)fixpoints: <none>" in p.stdout and "positivity is assumed: <none>" in p.stdout
+        run.coverage["coqchk"] = "ok: no axioms, no type-in-type, no unsafe fixpoints, no assumed positivity" if good else "FAILED"
+        if not good:
+            ok, failed, log = False, "coqchk", p.stdout
     # ---- thorough: strace --inject single faults over the raw syscall stream (search only)
     if thorough and not run.violations:
         strace_search(run, lib, [s for s in scs if s["name"] in ("file-all-datasources", "socket", "devlog-ident-template", "terminal-on-stdin", "stdout", "stderr", "file-path-template", "errlog-ident-overflow")], state, report)
